@@ -20,7 +20,7 @@ use crate::util::{hex, Out};
 use crate::Args;
 use modgen::*;
 use trust_runtime::bytecode::*;
-use trust_runtime::harness::bytecode_module_from_source;
+use trust_runtime::harness::TestHarness;
 
 // ---------------------------------------------------------------------------------------------
 // worker process
@@ -165,6 +165,8 @@ struct CaseSpec {
     resource: String,
     /// answer of the in-process compile pipeline for compiler-emitted containers
     emitted: Option<String>,
+    /// the encoder's error for a program the front end accepted
+    emit_failed: Option<String>,
 }
 
 fn fnv64(bytes: &[u8]) -> u64 {
@@ -367,29 +369,176 @@ fn corpus_case(k: u64) -> Option<(Vec<u8>, Vec<String>)> {
             }
             Some((enc(&m), note("corpus: every POU shares one body, jump to the end")))
         }
+        16 => {
+            // two faults: unsupported major AND wrong checksum (the checksum is checked first)
+            let mut b = enc(&m);
+            b[4..6].copy_from_slice(&2u16.to_le_bytes());
+            b[20] ^= 0x40;
+            Some((b, note("corpus: major 2 and bad CRC")))
+        }
+        17 => {
+            let mut b = enc(&m);
+            b[12..14].copy_from_slice(&23u16.to_le_bytes());
+            b[16..20].copy_from_slice(&20u32.to_le_bytes());
+            Some((b, note("corpus: header size 23 and table offset 20")))
+        }
+        18 => {
+            let mut b = enc(&m);
+            let len = b.len() as u32;
+            b[16..20].copy_from_slice(&(len + 2).to_le_bytes());
+            Some((b, note("corpus: table offset unaligned and out of bounds")))
+        }
+        19 => {
+            let mut b = enc(&m);
+            let len = b.len() as u32;
+            b[4..6].copy_from_slice(&7u16.to_le_bytes());
+            b[16..20].copy_from_slice(&len.to_le_bytes());
+            b[8..12].copy_from_slice(&0u32.to_le_bytes());
+            Some((b, note("corpus: major 7, table at the end of the file, no CRC flag")))
+        }
+        20 => {
+            // invalid ref location, entry truncated before the segment count: EOF comes first
+            let mut p = 1u32.to_le_bytes().to_vec();
+            p.extend_from_slice(&[9, 0, 0, 0]);
+            p.extend_from_slice(&0u32.to_le_bytes());
+            p.extend_from_slice(&0u32.to_le_bytes());
+            replace_section(&mut m, SectionId::RefTable, p);
+            Some((enc(&m), note("corpus: invalid ref location in a truncated entry")))
+        }
+        21 => {
+            // invalid ref location with a complete header
+            let mut p = 1u32.to_le_bytes().to_vec();
+            p.extend_from_slice(&[9, 0, 0, 0]);
+            p.extend_from_slice(&0u32.to_le_bytes());
+            p.extend_from_slice(&0u32.to_le_bytes());
+            p.extend_from_slice(&u32::MAX.to_le_bytes());
+            replace_section(&mut m, SectionId::RefTable, p);
+            Some((enc(&m), note("corpus: invalid ref location, segment count u32::MAX")))
+        }
+        22 => {
+            // VAR_META: retain policy 9 and ref index out of range (the index is checked first)
+            if let Some(SectionData::VarMeta(v)) = m.section_mut(SectionId::VarMeta) {
+                v.entries[0].retain = 9;
+                v.entries[0].ref_idx = 1000;
+            }
+            Some((enc(&m), note("corpus: var meta with bad retain policy and bad ref index")))
+        }
+        23 => {
+            // DEBUG_MAP: unknown POU and bad file index (the POU is checked first)
+            if let Some(SectionData::DebugMap(d)) = m.section_mut(SectionId::DebugMap) {
+                d.entries[0].pou_id = 77;
+                d.entries[0].file_idx = 77;
+            }
+            Some((enc(&m), note("corpus: debug entry with unknown POU and bad file index")))
+        }
+        24 => {
+            // struct constant: count mismatch and a field type out of range (count first)
+            if let Some(SectionData::TypeTable(t)) = m.section_mut(SectionId::TypeTable) {
+                if let TypeData::Struct { fields } = &mut t.entries[3].data {
+                    fields[0].type_id = 500;
+                }
+            }
+            if let Some(SectionData::ConstPool(p)) = m.section_mut(SectionId::ConstPool) {
+                p.entries[2].payload[0] = 3;
+            }
+            Some((enc(&m), note("corpus: struct constant with wrong count and bad field type")))
+        }
+        25 => {
+            // POU code range ends exactly at the end of the bodies; debug offset = end of the POU
+            if let Some(SectionData::DebugMap(d)) = m.section_mut(SectionId::DebugMap) {
+                d.entries[0].code_offset = 54;
+            }
+            Some((enc(&m), note("corpus: debug entry at the end offset of its POU")))
+        }
+        26 => {
+            // resource lookup: two resources, the second one selected by name elsewhere
+            if let Some(SectionData::ResourceMeta(r)) = m.section_mut(SectionId::ResourceMeta) {
+                r.resources.swap(0, 1);
+            }
+            Some((enc(&m), note("corpus: resources swapped (primary has no tasks)")))
+        }
+        27 => {
+            // a type table with a single entry whose offset is the payload length
+            let mut p = 1u32.to_le_bytes().to_vec();
+            p.extend_from_slice(&8u32.to_le_bytes());
+            let n = p.len() as u32;
+            p[4..8].copy_from_slice(&n.to_le_bytes());
+            replace_section(&mut m, SectionId::TypeTable, p);
+            Some((enc(&m), note("corpus: single type entry at offset = payload length")))
+        }
         _ => None,
     }
 }
 
-const CORPUS: u64 = 16;
+const CORPUS: u64 = 28;
+/// one case per opcode byte: the program body is `[op, 0 × 8, RET]`
+const SWEEP: u64 = 256;
+
+fn sweep_case(op: u8) -> Vec<u8> {
+    let mut rng = Rng::new(0xC11);
+    let mut m = rich_module(&mut rng);
+    m.version.minor = 1;
+    m.sections.retain(|s| s.id != 0x7777);
+    refresh_offsets(&mut m);
+    let mut code = vec![op];
+    code.extend_from_slice(&[0u8; 8]);
+    code.push(0x06);
+    if let Some(SectionData::PouIndex(ix)) = m.section_mut(SectionId::PouIndex) {
+        for (i, e) in ix.entries.iter_mut().enumerate() {
+            e.code_offset = 0;
+            e.code_length = if i == 0 { code.len() as u32 } else { 0 };
+        }
+    }
+    if let Some(SectionData::DebugMap(d)) = m.section_mut(SectionId::DebugMap) {
+        for e in d.entries.iter_mut() {
+            e.code_offset = 0;
+        }
+    }
+    if let Some(SectionData::PouBodies(b)) = m.section_mut(SectionId::PouBodies) {
+        *b = code;
+    }
+    m.encode().expect("encode sweep module")
+}
 
 struct Bases {
     emitted: Vec<(BytecodeModule, String)>,
 }
 
-fn compile(rng: &mut Rng, out: &mut Out) -> Option<(BytecodeModule, String, Vec<&'static str>)> {
+enum Compiled {
+    Ok(BytecodeModule, String, Vec<&'static str>),
+    /// the front end accepted the program but the bytecode encoder (whose last step is
+    /// `module.validate()`) returned an error
+    EmitFailed(String, String),
+}
+
+fn compile(rng: &mut Rng, out: &mut Out) -> Option<Compiled> {
     for _ in 0..6 {
         let p = gen_st::gen_program(rng);
-        match std::panic::catch_unwind(|| bytecode_module_from_source(&p.source)) {
-            Ok(Ok(m)) => return Some((m, p.source, p.features)),
+        let built = std::panic::catch_unwind(|| TestHarness::from_source(&p.source));
+        let harness = match built {
+            Ok(Ok(h)) => h,
             Ok(Err(e)) => {
                 out.count("compile-rejected");
                 if std::env::var("C11_DEBUG").is_ok() {
                     eprintln!("compile rejected: {e}\n{}", p.source);
                 }
+                continue;
             }
-            Err(_) => out.count("compile-panicked"),
-        }
+            Err(_) => {
+                out.count("compile-panicked");
+                continue;
+            }
+        };
+        let runtime = harness.into_runtime();
+        let source = p.source.clone();
+        let emitted = std::panic::catch_unwind(std::panic::AssertUnwindSafe(|| {
+            BytecodeModule::from_runtime_with_sources(&runtime, &[source.as_str()])
+        }));
+        return Some(match emitted {
+            Ok(Ok(m)) => Compiled::Ok(m, p.source, p.features),
+            Ok(Err(e)) => Compiled::EmitFailed(p.source, format!("err {}", format!("{e:?}").replace(' ', "_"))),
+            Err(_) => Compiled::EmitFailed(p.source, "panic".into()),
+        });
     }
     None
 }
@@ -398,8 +547,20 @@ fn gen_case(n: u64, seed: u64, bases: &Bases, out: &mut Out) -> CaseSpec {
     let simple = gen_st::SIMPLE_RUNTIME.to_string();
     if n < CORPUS {
         if let Some((bytes, notes)) = corpus_case(n) {
-            return CaseSpec { kind: "corpus", notes, bytes, runtime_source: simple, resource: "none".into(), emitted: None };
+            return CaseSpec { kind: "corpus", notes, bytes, runtime_source: simple, resource: "none".into(), emitted: None, emit_failed: None };
         }
+    }
+    if n < CORPUS + SWEEP {
+        let op = (n - CORPUS) as u8;
+        return CaseSpec {
+            kind: "opcode-sweep",
+            notes: vec![format!("op={op}")],
+            bytes: sweep_case(op),
+            runtime_source: simple,
+            resource: "none".into(),
+            emitted: None,
+            emit_failed: None,
+        };
     }
     let mut rng = Rng::for_case(seed, n);
     let resource = match rng.below(10) {
@@ -412,20 +573,35 @@ fn gen_case(n: u64, seed: u64, bases: &Bases, out: &mut Out) -> CaseSpec {
     let roll = rng.below(100);
     if roll < 5 {
         // compiler-emitted, unmutated, applied to the runtime built from the same source
-        if let Some((m, source, features)) = compile(&mut rng, out) {
-            let bytes = m.encode().expect("encode emitted module");
-            let answer = emitted_answer(&m, &bytes);
-            for f in &features {
-                out.count(&format!("feature-{f}"));
+        match compile(&mut rng, out) {
+            Some(Compiled::Ok(m, source, features)) => {
+                let bytes = m.encode().expect("encode emitted module");
+                let answer = emitted_answer(&m, &bytes);
+                for f in &features {
+                    out.count(&format!("feature-{f}"));
+                }
+                return CaseSpec {
+                    kind: "emitted",
+                    notes: vec![format!("features: {}", features.join(","))],
+                    bytes,
+                    runtime_source: source,
+                    resource: "none".into(),
+                    emitted: Some(answer),
+                    emit_failed: None,
+                };
             }
-            return CaseSpec {
-                kind: "emitted",
-                notes: vec![format!("features: {}", features.join(","))],
-                bytes,
-                runtime_source: source,
-                resource: "none".into(),
-                emitted: Some(answer),
-            };
+            Some(Compiled::EmitFailed(source, err)) => {
+                return CaseSpec {
+                    kind: "emit-failed",
+                    notes: vec!["the bytecode encoder rejected a program the compiler accepted".into()],
+                    bytes: Vec::new(),
+                    runtime_source: source,
+                    resource: "none".into(),
+                    emitted: None,
+                    emit_failed: Some(err),
+                };
+            }
+            None => {}
         }
     }
     if roll < 14 {
@@ -454,10 +630,10 @@ fn gen_case(n: u64, seed: u64, bases: &Bases, out: &mut Out) -> CaseSpec {
             }
             fix_crc(&mut bytes);
             let notes = vec!["random bytes behind a valid header".to_string()];
-            return CaseSpec { kind: "random-header", notes, bytes, runtime_source: simple, resource, emitted: None };
+            return CaseSpec { kind: "random-header", notes, bytes, runtime_source: simple, resource, emitted: None, emit_failed: None };
         }
         let notes = vec!["random bytes".to_string()];
-        return CaseSpec { kind: "random", notes, bytes, runtime_source: simple, resource, emitted: None };
+        return CaseSpec { kind: "random", notes, bytes, runtime_source: simple, resource, emitted: None, emit_failed: None };
     }
     // mutated: base = hand-built rich module or a compiler-emitted one
     let from_emitted = roll < 36 && !bases.emitted.is_empty();
@@ -499,6 +675,7 @@ fn gen_case(n: u64, seed: u64, bases: &Bases, out: &mut Out) -> CaseSpec {
         runtime_source: simple,
         resource,
         emitted: None,
+        emit_failed: None,
     }
 }
 
@@ -514,7 +691,7 @@ pub fn run(args: &Args) -> i32 {
     let mut bases = Bases { emitted: Vec::new() };
     let mut brng = Rng::for_case(args.seed, u64::MAX);
     for _ in 0..4 {
-        if let Some((m, source, _)) = compile(&mut brng, &mut out) {
+        if let Some(Compiled::Ok(m, source, _)) = compile(&mut brng, &mut out) {
             bases.emitted.push((m, source));
         }
     }
@@ -540,6 +717,10 @@ pub fn run(args: &Args) -> i32 {
         out.line(format!("impl {}", res.mem));
         if let Some(e) = &spec.emitted {
             out.line("emitted");
+            out.line(format!("impl {e}"));
+        }
+        if let Some(e) = &spec.emit_failed {
+            out.line(format!("emitfail {}", hex(spec.runtime_source.as_bytes())));
             out.line(format!("impl {e}"));
         }
         let class = |s: &str| -> String {
